@@ -9,6 +9,10 @@ use crate::chunks::material::M2Material;
 use crate::chunks::texture::{M2Texture, M2TextureType};
 use crate::common::{C3Vector, M2Array};
 use std::io::Cursor;
+use crate::version::M2Version;
+use crate::chunks::attachment::M2Attachment;
+
+include!("verif_blocks.rs");
 
 pub fn stub_format(_args: core::fmt::Arguments<'_>) -> String {
     String::new()
@@ -311,3 +315,68 @@ fn u13_1_bone_from_model_v264() {
     bone_from_model(264);
 }
 
+
+// ------------------------------------------------------------------------------------ attachment record, conversion paths
+// @harness unit=U13.1 props=C13 kind=bounded bound="scale track with an empty value array; every other byte value incl. negative bone index" timeout=600 target="chunks/attachment.rs: M2Attachment::parse / write (48 bytes)" oracle=m2_records
+#[kani::proof]
+#[kani::unwind(12)]
+#[kani::stub(alloc::fmt::format, stub_format)]
+fn u13_1_attachment_codec() {
+    let buf: [u8; 48] = kani::any();
+    let version: u32 = kani::any();
+    // documented normalisation excluded: unknown interpolation code of the scale track
+    kani::assume(M2InterpolationType::from_u16(u16::from_le_bytes([buf[20], buf[21]])).is_some());
+    // the scale track's value array is followed through its offset by the parser: empty here (count word = 0)
+    kani::assume(buf[40] == 0 && buf[41] == 0 && buf[42] == 0 && buf[43] == 0);
+    let mut c = Cursor::new(&buf[..]);
+    let a = match M2Attachment::parse(&mut c, version) {
+        Ok(a) => a,
+        Err(e) => {
+            core::mem::forget(e);
+            return;
+        }
+    };
+    let consumed = c.position() as usize;
+    assert!(a.bone_index == i32::from_le_bytes([buf[4], buf[5], buf[6], buf[7]]), "bone index is the full signed dword");
+    let mut out = [0u8; 48];
+    let n = {
+        let mut w: &mut [u8] = &mut out[..];
+        if let Err(e) = a.write(&mut w, version) {
+            core::mem::forget(e);
+            assert!(false, "write succeeds");
+            return;
+        }
+        written(48, w)
+    };
+    assert!(n == consumed, "write emits as many bytes as parse consumed");
+    same_prefix!(out, buf, consumed);
+    core::mem::forget(a);
+}
+
+fn any_m2_version(k: u8) -> M2Version {
+    match k % 11 {
+        0 => M2Version::Vanilla, 1 => M2Version::TBC, 2 => M2Version::WotLK, 3 => M2Version::Cataclysm, 4 => M2Version::MoP, 5 => M2Version::WoD,
+        6 => M2Version::Legion, 7 => M2Version::BfA, 8 => M2Version::Shadowlands, 9 => M2Version::Dragonflight, _ => M2Version::TheWarWithin,
+    }
+}
+
+// a multi-step conversion path ends at the requested version and moves one release at a time in one direction
+// @harness unit=U13.2 props=C13 kind=complete timeout=900 target="converter.rs: M2Converter::build_conversion_paths path construction (E11 block), every (from, to) pair" oracle=m2_records
+#[kani::proof]
+#[kani::unwind(14)]
+#[kani::stub(alloc::fmt::format, stub_format)]
+fn u13_2_conversion_path_reaches_target() {
+    let versions = [M2Version::Vanilla, M2Version::TBC, M2Version::WotLK, M2Version::Cataclysm, M2Version::MoP, M2Version::WoD,
+        M2Version::Legion, M2Version::BfA, M2Version::Shadowlands, M2Version::Dragonflight, M2Version::TheWarWithin];
+    let (a, b): (u8, u8) = (kani::any(), kani::any());
+    kani::assume(a < 11 && b < 11 && a != b);
+    let path = blk_conversion_path(versions, any_m2_version(a), any_m2_version(b));
+    let dist = if a < b { b - a } else { a - b } as usize;
+    assert!(path.len() == dist, "one step per release between the two versions");
+    assert!(path[path.len() - 1] == any_m2_version(b), "the path ends at the requested version");
+    let i: usize = kani::any();
+    kani::assume(i < path.len());
+    let want = if a < b { a + 1 + i as u8 } else { a - 1 - i as u8 };
+    assert!(path[i] == any_m2_version(want), "step i is the i-th release towards the target");
+    core::mem::forget(path);
+}
